@@ -217,6 +217,18 @@ def ipv4obj (a m : Str) : Option (Str × Nat) :=
   | some _, some l => some (a, l)
   | _, _ => none
 
+/-! ## factory transparency
+
+`CiscoConfParse(lines, syntax=…, factory=…)`: the factory only chooses the *class* of each line
+object (`config_line_factory`); `ConfigList.bootstrap` then links the objects by their texts.
+The tree builder of the model, `Ccp.Tree.parse`, has no class input at all, so the tree of a
+factory parse — when the factory accepts the config, i.e. no constructor raises — is modelled
+as the same function of the lines.  That the real code behaves so is measured (tree dumps with
+factory on and off), not proved. -/
+
+/-- texts / parents / keep flags of `CiscoConfParse(ls, factory=factory)`, if it returns -/
+def treeOf (_factory : Bool) (cfg : Cfg) (ls : List Str) : T := parse cfg ls
+
 /-! ## the family of an interface line -/
 
 structure Fam where
@@ -228,7 +240,7 @@ structure Fam where
   order : List Str
   /-- for every `obj` of `self.parent.all_children`: the texts of `obj`'s own order -/
   secFams : List (List Str)
-deriving Repr
+deriving Repr, DecidableEq
 
 def famOf (t : T) (i : Nat) : Fam :=
   { self := Typed.text t i
